@@ -115,10 +115,15 @@ pub fn main_pred(args: &[String]) -> i32 {
             3 => DVec3::new(rng.gen_range(-1e3..1e3), rng.gen_range(-1e3..1e3), rng.gen_range(-1e3..1e3)),
             _ => DVec3::new(-14.17150624593099, 16.202089309692383, 26.540990829467773),
         };
-        let width = match trial % 4 {
+        // (boxes smaller than the unit slab of the unused axes included: the unused axes of 1D / 2D are normalised to
+        // [-0.5, 0.5] whatever the scale of the used ones, and their walls are mirrored through as well)
+        let width = match (trial / 3 + trial / 7) % 7 {
             0 => DVec3::ONE,
             1 => DVec3::new(32.670213063557945, 4.626067479451496, 0.2923425038655587),
             2 => DVec3::new(rng.gen_range(1e-3..1e3), rng.gen_range(1e-3..1e3), rng.gen_range(1e-3..1e3)),
+            3 => DVec3::new(0.3, 0.21, 0.11),
+            4 => DVec3::splat(10f64.powf(rng.gen_range(-9.0..-0.5))),
+            5 => DVec3::new(0.5, 0.5, 0.5),
             _ => DVec3::new(4.0, 2.0, 8.0),
         };
         // what the builder passes for low dimensionalities
@@ -213,7 +218,9 @@ pub fn main_pred(args: &[String]) -> i32 {
             }
             if let (Some(mx), Some(mn)) = (diffs.iter().max(), diffs.iter().min()) {
                 // relative agreement to 1e-9 (the offsets of the box limit the absolute accuracy of the map)
-                if (*mx - *mn) as f64 > 1e-9 * (*mx as f64).abs() + 4096.0 {
+                // (... and the probe positions base + step are themselves rounded to the ulp of the offset: relative 4 eps |a| / step)
+                let mag = (0..=dimi).map(|k| a[k].abs() + w[k]).fold(0.0, f64::max);
+                if (*mx - *mn) as f64 > (1e-9 + 8.0 * f64::EPSILON * mag / step) * (*mx as f64).abs() + 4096.0 {
                     failures.push(json!({"prop": "C10", "what": "the map from positions to the grid is not a similarity: equal steps along different used axes give different grid steps (the in-sphere test then decides about an ellipsoid)",
                         "detail": {"anchor": a.to_array(), "width": w.to_array(), "periodic": per, "dim": dimi + 1, "step": step, "grid_steps": diffs}}));
                 }
